@@ -32,6 +32,7 @@ type loopInfo struct {
 	entrySt  *State // state on loop entry (before havoc)
 	declared map[string][]string
 	entryAlloc string
+	regionAtHead bool
 }
 
 type edgeInfo struct {
@@ -66,6 +67,11 @@ type Frame struct {
 	oblPrefix string
 	variant0  string
 	invokeMethod *types.Func
+	held      []*heldLock
+	regionSt  *State
+	nAcquire  int
+	nUnlock   int
+	relOrd    map[ssa.Instruction]int
 	ghosts    []*Val
 	namedVars map[ssa.Value]bool
 	topNames  map[string]*Val
@@ -419,14 +425,18 @@ func (fr *Frame) loopHead(li *loopInfo, phis []*ssa.Phi) {
 	}
 	li.entrySt = fr.st.clone()
 	li.entryAlloc = fr.st.alloc
-	// 1. invariants hold on entry
+	// 1. invariants hold on entry (an earlier invariant may be used to prove a later one)
+	var provenEntry []string
 	for i, inv := range li.lc.Invariants {
 		t, err := fr.evalClause(inv, &evalCtx{fr: fr, st: fr.st, old: fr.entry, loop: li})
 		if err != nil {
 			fr.stale(name+"/"+clauseName("inv", i, inv), err)
 			continue
 		}
-		fr.oblige("inv-entry", name+"/"+clauseName("inv", i, inv)+"/entry", t)
+		fr.oblige("inv-entry", name+"/"+clauseName("inv", i, inv)+"/entry", implies(and(provenEntry...), t))
+		if ta, err := fr.evalClause(inv, &evalCtx{fr: fr, st: fr.st, old: fr.entry, loop: li, assuming: true}); err == nil {
+			provenEntry = append(provenEntry, ta)
+		}
 	}
 	// 2. havoc loop-modified state
 	li.phiHead = map[*ssa.Phi]*Val{}
@@ -492,6 +502,13 @@ func (fr *Frame) loopHead(li *loopInfo, phis []*ssa.Phi) {
 		fr.st.alloc = a
 	}
 	li.headSt = fr.st.clone()
+	if fr.parent == nil && fr.eng.loopHasWait(li) {
+		// every iteration starts right after an acquire (Lock before the loop or
+		// Wait inside it): the loop head is the acquire point for atAcquire();
+		// the latch checks that nothing guarded changed since the last acquire
+		li.regionAtHead = true
+		fr.regionSt = fr.st.clone()
+	}
 	for _, ph := range phis {
 		fr.seedVal(fr.vals[ph])
 		// range-over-slice index: starts at -1 and is only incremented (SSA shape checked)
@@ -558,17 +575,32 @@ func (fr *Frame) loopLatch(li *loopInfo, from *ssa.BasicBlock) {
 	for ph, v := range newVals {
 		fr.vals[ph] = v
 	}
+	var provenLatch []string
 	for i, inv := range li.lc.Invariants {
 		t, err := fr.evalClause(inv, &evalCtx{fr: fr, st: fr.st, old: fr.entry, loop: li})
 		if err != nil {
 			continue
 		}
-		fr.oblige("inv-preserve", name+"/"+clauseName("inv", i, inv)+"/preserve", t)
+		fr.oblige("inv-preserve", name+"/"+clauseName("inv", i, inv)+"/preserve", implies(and(provenLatch...), t))
+		if ta, err := fr.evalClause(inv, &evalCtx{fr: fr, st: fr.st, old: fr.entry, loop: li, assuming: true}); err == nil {
+			provenLatch = append(provenLatch, ta)
+		}
 	}
 	if li.lc.Decreases != nil && li.variant != "" {
 		t, err := fr.evalClauseInt(li.lc.Decreases, &evalCtx{fr: fr, st: fr.st, old: fr.entry, loop: li})
 		if err == nil {
 			fr.oblige("decreases", name+"/decreases", and(app("<=", "0", li.variant), app("<", t, li.variant)))
+		}
+	}
+	if li.regionAtHead && fr.regionSt != nil {
+		for _, h := range fr.topFrame().held {
+			for _, hn := range sortedKeys(h.spec.heapSet) {
+				cur := sel(fr.vc.heapGet(fr.st, hn), h.ref)
+				at := sel(fr.vc.heapGet(fr.regionSt, hn), h.ref)
+				if cur != at {
+					fr.oblige("region", name+"/since-acquire#"+strings.TrimPrefix(hn, "F$"), eq(cur, at))
+				}
+			}
 		}
 	}
 	for i, la := range li.lc.Latch {
